@@ -11,7 +11,8 @@
 
    Answers:
      dir : <write: ok|werror> TAB <load: ok|error|hang> TAB <listing> TAB wf=<0|1>;failed=<k|->;cap=<n>;depth=<d>
-     file: <ok|error> TAB <listing> TAB keeps_exec=<0|1>;possible=<0|1>
+           (failed = download goroutines with an error to send, cap = capacity of errChan)
+     file: <ok|error> TAB <listing> TAB prior_exec=<0|1>;possible=<0|1>;exec_recorded=<0|1>
    listing: comma separated, pre-order, "<hexpath>:f:<x>:<hexcontent>" | "<hexpath>:d" | "<hexpath>:l:<hextarget>";
    the root itself has path "-". *)
 open Model
@@ -77,7 +78,7 @@ let do_dir = function
            List.fold_left (fun st m -> if m = "T" then cas_del r st else cas_del (x_file_key (fld m)) st)
              st (String.split_on_char ',' missing) in
        let m = x_tree_msg_of t in
-       let cap = List.length m.tm_children in
+       let cap = int_of_nat err_chan_cap in
        let failed = match x_load_failures m st with None -> "-" | Some k -> string_of_int (int_of_nat k) in
        let (cls, lst) = match x_load_tree r st d with
          | Done n -> ("ok", show n)
@@ -89,14 +90,14 @@ let do_dir = function
 let do_file = function
   | [c; x; dest; missing] ->
     let d = parse_dest dest in
-    let (st, dg) = x_file_write (fld c) (x = "1") [] in
-    let st = if missing = "1" then cas_del dg.d_hash st else st in
-    let (cls, lst) = match x_file_load dg st d with
+    let (st, fm) = x_file_write (fld c) (x = "1") [] in
+    let st = if missing = "1" then cas_del fm.fm_digest.d_hash st else st in
+    let (cls, lst) = match x_file_load fm st d with
       | Done n -> ("ok", show n)
       | Error -> ("error", "-")
       | Stuck -> ("hang", "-") in
-    Printf.sprintf "%s\t%s\tkeeps_exec=%d;possible=%d" cls lst
-      (if file_restore_exec d then 1 else 0) (if file_restore_possible d then 1 else 0)
+    Printf.sprintf "%s\t%s\tprior_exec=%d;possible=%d;exec_recorded=%d" cls lst
+      (if file_restore_exec d then 1 else 0) (if file_restore_possible d then 1 else 0) (if fm.fm_exec then 1 else 0)
   | _ -> failwith "file: arity"
 
 let () =
